@@ -345,3 +345,37 @@ Proof.
     destruct (add (x_log sc) (std_req t success)); intro H; inversion H; subst; auto. }
   destruct P1 as [L _]. unfold restore. rewrite L. simpl. auto.
 Qed.
+
+(* ---- block-level renumbering *)
+Lemma update_index_from_nth : forall l i0 i e, nth_error l i = Some e ->
+  nth_error (update_index_from l i0) i = Some (reindex e (i0 + i)).
+Proof.
+  induction l; intros i0 i e H; destruct i; simpl in *; try discriminate.
+  - inversion H; subst. rewrite Nat.add_0_r. auto.
+  - rewrite (IHl (S i0) i e H). f_equal. f_equal. lia.
+Qed.
+
+Lemma update_index_from_length : forall l i0, length (update_index_from l i0) = length l.
+Proof. induction l; simpl; intros; auto. Qed.
+
+(* the events of a block, as the engine stores them: same events in the same order (before-hooks, the transactions in
+   block order, after-hooks), every field but the index untouched, and the i-th event carries index i *)
+Theorem block_events_renumbered : forall before txs after i e,
+  nth_error (before ++ concat txs ++ after) i = Some e ->
+  nth_error (block_events before txs after) i = Some (reindex e i).
+Proof. intros. unfold block_events, update_index. rewrite (update_index_from_nth _ 0 i e H). auto. Qed.
+
+Theorem block_events_indexed : forall before txs after i e,
+  nth_error (block_events before txs after) i = Some e -> ev_index e = N.of_nat i.
+Proof.
+  intros before txs after i e H. unfold block_events, update_index in H.
+  destruct (nth_error (before ++ concat txs ++ after) i) as [e0|] eqn:E.
+  - rewrite (update_index_from_nth _ 0 i e0 E) in H. inversion H; subst. reflexivity.
+  - apply nth_error_None in E. assert (nth_error (update_index_from (before ++ concat txs ++ after) 0) i = None).
+    { apply nth_error_None. rewrite update_index_from_length. auto. }
+    congruence.
+Qed.
+
+Theorem block_events_length : forall before txs after,
+  length (block_events before txs after) = length (before ++ concat txs ++ after).
+Proof. intros. apply update_index_from_length. Qed.
